@@ -790,8 +790,8 @@ func run(c *lib.Ctx) {
 	}
 	var cfgs []cfg
 	if c.Quick() {
-		cfgs = []cfg{{us[0], 2, 2}, {us[0], 3, 2}, {us[0], 4, 2}, {us[2], 2, 1}, {us[2], 4, 1},
-			{us[1], 2, 2}, {us[1], 4, 2}}
+		// cheapest first, so that a loaded machine still covers every universe
+		cfgs = []cfg{{us[0], 3, 2}, {us[0], 4, 2}, {us[2], 2, 1}, {us[2], 4, 1}, {us[1], 3, 2}, {us[0], 2, 2}}
 	} else {
 		cfgs = []cfg{{us[0], 2, 3}, {us[0], 3, 3}, {us[0], 4, 3}, {us[2], 2, 2}, {us[2], 3, 2}, {us[2], 4, 2},
 			{us[1], 2, 3}, {us[1], 3, 3}, {us[1], 4, 3}}
